@@ -296,6 +296,85 @@ func (g *fnGen) program() ([]model.Node, string) {
 	return prog, class
 }
 
+// sequence: SEVERAL functions of one signature and several calls in one render.
+// The same called name has to resolve to different functions at different
+// moments: a higher-order function handed each of them in turn, a parameter
+// named like a function the caller has already called, an alias rebound with
+// let / = between calls.
+func (g *fnGen) sequence() ([]model.Node, string) {
+	t := g.t
+	np := rapid.IntRange(0, 3).Draw(t, "nparams")
+	g.fams = nil
+	for i := 0; i < np; i++ {
+		g.fams = append(g.fams, fam(rapid.IntRange(0, 2).Draw(t, "fam")))
+	}
+	nf := rapid.IntRange(2, 3).Draw(t, "nfuncs")
+	names := []string{"f0", "f1", "f2"}[:nf]
+	var prog []model.Node
+	for _, n := range names {
+		prog = append(prog, model.Code{S: model.LetS{Name: n, X: model.FnLit{Params: paramNames[:np], Body: g.chain(2, true)}}})
+	}
+	ps := paramNames[:np]
+	// ap(h, params...) calls its parameter; sh(f0, params...) calls a PARAMETER
+	// named like the first function; tw(h, k, params...) calls two parameters
+	prog = append(prog,
+		model.Code{S: model.LetS{Name: "ap", X: model.FnLit{Params: append([]string{"h"}, ps...), Body: []model.Node{model.Code{S: model.ReturnS{X: model.Call{Fn: "h", Args: varsOf(ps)}}}}}}},
+		model.Code{S: model.LetS{Name: "sh", X: model.FnLit{Params: append([]string{"f0"}, ps...), Body: []model.Node{model.Code{S: model.ReturnS{X: model.Call{Fn: "f0", Args: varsOf(ps)}}}}}}},
+		model.Code{S: model.LetS{Name: "tw", X: model.FnLit{Params: append([]string{"h", "k"}, ps...), Body: []model.Node{
+			model.Code{S: model.LetS{Name: "fst", X: model.Call{Fn: "h", Args: varsOf(ps)}}},
+			model.Code{S: model.ReturnS{X: model.Bin{Op: "+", L: model.Bin{Op: "+", L: model.Var{Name: "fst"}, R: model.Lit{V: "&"}}, R: model.Call{Fn: "k", Args: varsOf(ps)}}}}}}}},
+	)
+	args := func() []model.Expr {
+		var out []model.Expr
+		for _, f := range g.fams {
+			out = append(out, g.arg(f))
+		}
+		return out
+	}
+	fv := func() model.Expr { return model.Var{Name: rapid.SampledFrom(names).Draw(t, "fn")} }
+	class := map[string]bool{}
+	aliased := false
+	for i, n := 0, rapid.IntRange(2, 5).Draw(t, "ncalls"); i < n; i++ {
+		prog = append(prog, model.Text{S: "["})
+		k := rapid.IntRange(0, 6).Draw(t, "how")
+		if k >= 5 && !aliased {
+			k = 4
+		}
+		switch k {
+		case 0:
+			class["direct"] = true
+			prog = append(prog, model.Emit{X: model.Call{Fn: rapid.SampledFrom(names).Draw(t, "fn"), Args: args()}})
+		case 1:
+			class["ap"] = true
+			prog = append(prog, model.Emit{X: model.Call{Fn: "ap", Args: append([]model.Expr{fv()}, args()...)}})
+		case 2:
+			class["shadow"] = true
+			prog = append(prog, model.Emit{X: model.Call{Fn: "sh", Args: append([]model.Expr{fv()}, args()...)}})
+		case 3:
+			class["two"] = true
+			prog = append(prog, model.Emit{X: model.Call{Fn: "tw", Args: append([]model.Expr{fv(), fv()}, args()...)}})
+		case 4:
+			class["alias-let"] = true
+			aliased = true
+			prog = append(prog, model.Code{S: model.LetS{Name: "al", X: fv()}}, model.Emit{X: model.Call{Fn: "al", Args: args()}})
+		case 5:
+			class["alias-assign"] = true
+			prog = append(prog, model.Code{S: model.AssignS{Name: "al", X: fv()}}, model.Emit{X: model.Call{Fn: "al", Args: args()}})
+		case 6:
+			class["alias-again"] = true
+			prog = append(prog, model.Emit{X: model.Call{Fn: "al", Args: args()}})
+		}
+		prog = append(prog, model.Text{S: "]"})
+	}
+	var cs []string
+	for _, c := range []string{"direct", "ap", "shadow", "two", "alias-let", "alias-assign", "alias-again"} {
+		if class[c] {
+			cs = append(cs, c)
+		}
+	}
+	return prog, "seq:" + strings.Join(cs, "+")
+}
+
 func varsOf(names []string) []model.Expr {
 	var out []model.Expr
 	for _, n := range names {
@@ -380,7 +459,7 @@ func fixed() [][]model.Node {
 	return out
 }
 
-const rule = "(E) 41 fixed programs: swapped and rotated namesake arguments, nested calls, results used in + == < ! || and if tests, emission inside if/for blocks with content after it, aliasing, higher-order application, a function returning a function, recursion to depth 25, first-return-wins with dead code; each in the tag-per-statement and in the compact single-tag layout. (R) generated functions of 0-4 parameters (families int/string/bool) whose bodies are if/else-if/else decision chains over the parameters nested to depth 3, every path ending in return <unique label>, with dead code after returns and local lets; argument tuples from literals (incl. nil), plain variables, caller variables NAMED LIKE THE FUNCTION'S OWN PARAMETERS, and calls of the SAME function in any argument position; 12 use sites (emit, let-then-emit, ==, if test, +, string concat, argument of a user function / Go helper, inside if / for blocks with text after, higher-order through a parameter). Oracle: reference interpreter (arguments evaluated in the caller's scope, parameters bound to argument values, fresh scope, first return reached). Non-trivial: every generated program (distinct by template text)."
+const rule = "(E) 41 fixed programs: swapped and rotated namesake arguments, nested calls, results used in + == < ! || and if tests, emission inside if/for blocks with content after it, aliasing, higher-order application, a function returning a function, recursion to depth 25, first-return-wins with dead code; each in the tag-per-statement and in the compact single-tag layout. (R) generated functions of 0-4 parameters (families int/string/bool) whose bodies are if/else-if/else decision chains over the parameters nested to depth 3, every path ending in return <unique label>, with dead code after returns and local lets; argument tuples from literals (incl. nil), plain variables, caller variables NAMED LIKE THE FUNCTION'S OWN PARAMETERS, and calls of the SAME function in any argument position; 12 use sites (emit, let-then-emit, ==, if test, +, string concat, argument of a user function / Go helper, inside if / for blocks with text after, higher-order through a parameter). (R2) call SEQUENCES in one render: 2-3 functions of one signature and 2-5 calls, each direct, through a higher-order function handed any of them, through a parameter NAMED LIKE an already-called function, through two function parameters in one body, or through an alias rebound with let / = between calls, so that one called name resolves to different functions at different moments. Oracle: reference interpreter (arguments evaluated in the caller's scope, parameters bound to argument values, fresh scope, first return reached). Non-trivial: every generated program (distinct by template text)."
 
 func setup(t *testing.T) *vk.Run {
 	r := vk.Start(t, "C16", rule,
@@ -423,5 +502,13 @@ func TestProp(t *testing.T) {
 		}
 		return run(r, prog, compact, class)
 	})
-	_ = strings.Join
+	r.Rapid("sequences", r.Pick(6000, 60000), func(t *rapid.T) *vk.Fail {
+		g := &fnGen{t: t}
+		prog, class := g.sequence()
+		compact := rapid.Bool().Draw(t, "compact")
+		if compact {
+			class += "/compact"
+		}
+		return run(r, prog, compact, class)
+	})
 }
